@@ -275,6 +275,23 @@ CLAIMED.update(
     }
 )
 
+CLAIMED.update(
+    {
+        "C14": (
+            "abstract interpretation of the ranking / selection operators by the checker's own evaluator over finite partitions (point grids, all sequences of <= 4 individuals, bias x random x length grids) with Pareto dominance and range/monotonicity oracles; guard and must-pass path queries on the front construction",
+            "Decides the operator contracts on finite partitions, interpreting the source with opaque representative chromosomes: DominanceComparator.compare equals Pareto dominance on all "
+            "36 ordered pairs of a point grid (and None operands); _get_non_dominated_solutions returns exactly the non-dominated individuals, each ranked with the front index, for all 780 "
+            "sequences of up to 4 individuals over 5 points (ties, duplicates, every order); _get_zero_front holds for every goal an individual of minimal fitness, shortest among ties, for "
+            "both outcomes of the tie coin; fast_epsilon_dominance_assignment leaves every distance in [0, 1) for fronts of 1-4 members whatever the previous distance; "
+            "RankSelection.get_index is an int in [0, len), non-decreasing in the random value and with the median in the better half, for 9 biases of [1.0, 2.0] x 9 random values "
+            "(incl. 0, the smallest subnormal and 1-2^-53) x 5 population sizes. Shape: the front scan leaves its inner loop only when the candidate is dominated; every front is removed "
+            "from the remaining individuals before the next is computed from them. Uniformity inside a cell is assumed; the exact selection distribution is not decided.",
+            "Trusts sa/engine/peval.py and the representative-object model (fitness vector, length, rank, distance).",
+            "DESIGN.md §3 C14",
+        ),
+    }
+)
+
 NOT_APPLICABLE: dict[str, str] = {
     "C06": "Correctness of the post-dominator/CDG construction on every code object is functional correctness of a graph "
     "algorithm; no shape of the code implies it and no sound static argument in reach bounds 'all code objects'.",
